@@ -360,6 +360,8 @@ func (e *Engine) registerEnvIntrinsics(pkgPath string) {
 		x.setAttr(s, "undecodable") // padding is not a document
 		return s
 	})
+	reg("vrtZlib", func(x *Exec, fr *frame, a []Value) Value { return UF("zlibwrap", x.term(a[0])) })
+	reg("vrtGzip", func(x *Exec, fr *frame, a []Value) Value { return UF("gzipwrap", x.term(a[0])) })
 	reg("vrtMaterialisedWithin", func(x *Exec, fr *frame, a []Value) Value {
 		lim := x.term(a[0])
 		r := TrueT
@@ -469,6 +471,7 @@ func (e *Engine) registerEnvIntrinsics(pkgPath string) {
 		x.assume(Implies(x.sym(name+".cert.valid", SBool), Not(Eq(cert, StrC("")))))
 		return TupleV{&BytesV{T: cert}, &Pointer{Cell: c}}
 	})
+	e.Models[pkgPath+".vrtIdPOtherKeyPair"] = e.Models[pkgPath+".vrtIdPKeyPair"]
 	reg("vrtIdPSigned", func(x *Exec, fr *frame, a []Value) Value {
 		return IntC(int64(len(x.signed)))
 	})
